@@ -96,3 +96,6 @@ CFG["manifest"] = dict(
           "wf_* about time.AppendFormat / encoding/json (checked on every case); extraction + OCaml glue (vm_compute sample); Go harness."),
     technique="Coq proof (round-trip through a strict parser, nested induction, prefix-extension) + differential correspondence",
 )
+
+import tables  # constant tables / literals of the current source proved equal to the model's on every run (lib/tables.py)
+CFG["secondary"] = CFG.get("secondary", []) + [tables.C01_TABLES]
